@@ -709,13 +709,17 @@ Proof.
   induction v as [|bv|f|s|l IH|l IH] using jvalue_ind'; intros Hwf Hvs; try reflexivity.
   - inversion Hvs; subst. cbn [jnorm]. rewrite utf8_fix_valid by assumption. reflexivity.
   - inversion Hwf as [| | | |? Hl|]; subst. inversion Hvs as [| | | |? Hl2|]; subst.
-    cbn [jnorm]. f_equal. induction l as [|x r IHr]; [reflexivity|].
-    inversion IH; inversion Hl; inversion Hl2; subst. cbn [map]. f_equal; auto.
+    cbn [jnorm]. f_equal. clear Hwf Hvs. revert IH Hl Hl2.
+    induction l as [|x r IHr]; intros IH Hl Hl2; [reflexivity|].
+    inversion IH as [|? ? Hx Hr]; inversion Hl as [|? ? Hwx Hwr]; inversion Hl2 as [|? ? Hvx Hvr]; subst.
+    cbn [map]. f_equal; [apply Hx; assumption|apply IHr; assumption].
   - inversion Hwf as [| | | | |? Hs Hl]; subst. inversion Hvs as [| | | | |? Hl2]; subst.
     rewrite jnorm_obj. f_equal. rewrite fold_ins_sorted; [reflexivity|exact Hs|intros a b []|].
-    clear Hs. induction l as [|[k x] r IHr]; [constructor|].
-    inversion IH; inversion Hl; inversion Hl2 as [|? ? [Hk Hx] ?]; subst. constructor; [|auto].
-    cbn [fst snd] in *. split; [now apply utf8_fix_valid|auto].
+    clear Hs Hwf Hvs. revert IH Hl Hl2.
+    induction l as [|[k x] r IHr]; intros IH Hl Hl2; [constructor|].
+    inversion IH as [|? ? Hx Hr]; inversion Hl as [|? ? Hwx Hwr]; inversion Hl2 as [|? ? [Hk Hvx] Hvr]; subst.
+    cbn [fst snd] in *. constructor; [|apply IHr; assumption].
+    cbn [fst snd]. split; [now apply utf8_fix_valid|apply Hx; assumption].
 Qed.
 
 (* equality of values with numbers compared by F64.f_same *)
